@@ -234,6 +234,10 @@ fn run_history_here(
                     let _ = runner.views();
                     runner.exec(&Op::NetRestore);
                 }
+                if runner.ext.signer_offline {
+                    let _ = runner.views();
+                    runner.exec(&Op::SignerSession);
+                }
             }
             if runner.dead.is_none() {
                 // Final quiescence.
